@@ -461,13 +461,14 @@ where
                     }));
                     extends
                         .iter()
-                        .filter_map(|parent| parent.expr.as_ident())
-                        .for_each(|ident| {
+                        .filter_map(|parent| parent.expr.as_ident().zip(Some(parent)))
+                        .for_each(|(ident, parent)| {
                             self.resolve_type_elements(
                                 &TsType::TsTypeRef(TsTypeRef {
                                     type_name: TsEntityName::Ident(ident.clone()),
-                                    type_params: None,
-                                    span: DUMMY_SP,
+                                    // `extends Partial<Base>`, `extends Omit<Base, 'x'>`
+                                    type_params: parent.type_args.clone(),
+                                    span: parent.span,
                                 }),
                                 props,
                             )
